@@ -4,11 +4,11 @@ from vv.registry import PROPS, COMMON_ASSUME, rc
 harness("h_c14", ["harness/h_c14.cc"], libs=("xtp", "csg"))
 
 PROPS["C14"] = dict(
-    parts=[rc("h_c14", quick=dict(cases=14000, procs=4, args=["--enum", "40"], budget_s=600),
-              thorough=dict(cases=600000, procs=16, args=["--enum", "100"], budget_s=2400))],
+    parts=[rc("h_c14", quick=dict(cases=500000, procs=4, args=["--enum", "40"], budget_s=600),
+              thorough=dict(cases=4000000, procs=16, args=["--enum", "100"], budget_s=2400))],
     rule=("huffman_measure: event lists of length 1..100 (generated) + every length 1..40 (quick) / 1..100 (thorough) x 4 rate patterns "
           "(enumerated); rates m*10^e over 12 decades, all equal, one dominant, small integers, 1e10..1e13; optional decay event; the exact "
-          "measure of every event is summed from the tree's internal thresholds, all thresholds +-4 ulp, 0 and 1 are probed, a 4096-cell "
+          "measure of every event is summed from the tree's internal thresholds, all thresholds +-4 ulp, 0 and 1 are probed, a 1024-cell "
           "grid + bisection cross-checks the thresholds; non-trivial = n >= 3 with >= 2 distinct rates. "
           "marcus: site energies, inner reorganisation energies (same on both segments, or only the forward/backward sums equal), outer-sphere "
           "lambda (0 or > 0), J^2 over 8 decades, field (none / weak / axis / strong), R up to 30 bohr, kT 48..960 K, carrier e/h/s/t on a 2^-16 "
